@@ -29,6 +29,7 @@ func runC10(w *World, r *Report) {
 	hrArrivalTimestampExact(w, r, "R4")
 	hrParseHeaders(w, r, "R4")
 	hrCfgAgentTimeout(w, r, "R6")
+	hrDefaultTimeoutMatchesTheImage(w, r, "R6")
 	hrQueueTTLAtLeastOneSecond(w, r, "R6")
 	hrNoDedupBeforeUniqueness(w, r, "R8")
 	hrTimeoutAboveTTL(w, r, "R6")
